@@ -2,6 +2,7 @@
 * Copyright (C) 2018-2025 by Pavel Kisliak                                     *
 * This file is part of BitSerializer library, licensed under the MIT license.  *
 *******************************************************************************/
+#include <algorithm>
 #include "msgpack_readers.h"
 #include "bitserializer/conversion_detail/memory_utils.h"
 
@@ -1251,7 +1252,8 @@ namespace BitSerializer::MsgPack::Detail
 			}
 
 			mBuffer.clear();
-			mBuffer.reserve(remainingSize);
+			// The declared size (up to 4 GB) is not trusted until the data has actually been read
+			mBuffer.reserve(std::min(remainingSize, BitSerializer::Detail::CBinaryStreamReader::chunk_size));
 			while (remainingSize != 0)
 			{
 				if (const std::string_view chunk = mBinaryStreamReader.ReadByChunks(remainingSize); !chunk.empty())
